@@ -162,26 +162,26 @@ PROPS = {
         "level": "exploration",
         "units": [
             R("h23", "c16", "TestC16_Histories", (3000, 8, 1500), (200000, 16, 8000)),
-            R("h23", "c16", "TestC16_Topic", (10, 1, 900), (300, 4, 3000)),
+            R("h23", "c16", "TestC16_Topic", (60, 4, 900), (1500, 8, 3000)),
         ],
     },
     "C08": {
         "level": "exploration",
         "units": [
-            R("h26", "c08", "TestC08_Scripts", (2000, 8, 1500), (150000, 16, 8000)),
+            R("h26", "c08", "TestC08_Scripts", (2000, 8, 300), (150000, 16, 8000)),
         ],
     },
     "C14": {
         "level": "exploration",
         "units": [
-            R("h26", "c14", "TestC14_Scripts", (1500, 8, 1500), (100000, 16, 8000)),
-            R("h26", "c14", "TestC14_RegisterCancelStress", (400, 8, 1500), (20000, 16, 8000)),
+            R("h26", "c14", "TestC14_Scripts", (1500, 8, 300), (100000, 16, 8000)),
+            R("h26", "c14", "TestC14_RegisterCancelStress", (400, 8, 300), (20000, 16, 8000)),
         ],
     },
     "C15": {
         "level": "exploration",
         "units": [
-            R("h26", "c15", "TestC15_Scripts", (1500, 8, 1500), (100000, 16, 8000)),
+            R("h26", "c15", "TestC15_Scripts", (1500, 8, 300), (100000, 16, 8000)),
         ],
     },
 }
